@@ -162,7 +162,7 @@ def opHolds (w : Wiring) (x : Half) (r : OpRec) : Bool :=
   if r.st = .failed .alreadyStopped then false else
   match r.kind with
   | .callw _ | .tryCall _ => (w.holds .caller).contains x
-  | .trySend _ => (w.holds .sender).contains x
+  | .trySend _ | .tryForce _ => (w.holds .sender).contains x
   | .tryHalt => (w.holds .addr).contains x
   | _ => false
 
@@ -252,6 +252,7 @@ def kindOk (k : OpKind) (hk : HKind) : Bool :=
   match k, hk with
   | .send _, .addr | .send _, .owning | .send _, .sender => true
   | .trySend _, .weakSender => true
+  | .tryForce _, .weakSender => true
   | .call _, .addr | .call _, .owning => true
   | .callw _, .caller => true
   | .tryCall _, .weakCaller => true
@@ -278,6 +279,8 @@ def plan (w : Wiring) (hk : HKind) (o : Nat) : OpKind → Plan
   | .send m => { upg := [], pl := some (.msg m none), path := sendPath w hk, join := false }
   | .trySend m =>
     { upg := w.upgradeReq .weakSender, pl := some (.msg m none), path := sendPath w hk, join := false }
+  | .tryForce m =>
+    { upg := w.upgradeReq .weakSender, pl := some (.msg m none), path := .forcing, join := false }
   | .call m => { upg := [], pl := some (.msg m (some o)), path := w.path .addrCall, join := false }
   | .callw m => { upg := [], pl := some (.msg m (some o)), path := w.path .callerCall, join := false }
   | .tryCall m =>
@@ -325,7 +328,7 @@ def retExpect (s : AState) (rec : OpRec) : Option Res :=
   | .failed e => some (.err e)
   | .pending =>
     (match rec.kind with
-     | .send _ | .trySend _ => if s.chan.isParked (.op rec.o) then none else some .ok
+     | .send _ | .trySend _ | .tryForce _ => if s.chan.isParked (.op rec.o) then none else some .ok
      | .halt | .tryHalt | .await => s.latchRes
      | _ => none)
   | .answered v =>
